@@ -63,3 +63,17 @@ def mk_source(mode, us):
     if x < .9:
         return event.Source.Signature(trigger=mode).create()
     return event.Source.Signature(trigger=event.Source.Trigger(mode)).create(path=("src",))
+
+
+def mk_event_map(us):
+    """an EventMap, or (own random stream) an instance of a user's subclass that lists its sources in another order —
+    the same (source, index) pairs, numbered exactly as before — e.g. by priority; and sources of the same name"""
+    from amaranth_soc import event
+    x = us.random()
+    if x < .8:
+        return event.EventMap()
+
+    class ByPriority(event.EventMap):
+        def sources(self):
+            yield from sorted(super().sources(), key=lambda t: -t[1])
+    return ByPriority()
